@@ -93,8 +93,8 @@ func c01ImplM(in, model []int64) []int64 {
 	for i := 0; i < nt; i++ {
 		progs[i], rest = GetList(rest)
 	}
-	a := newRingAcc(1 << uint(k))
 	base := uint64(bh)<<32 + uint64(bl)
+	a := newRingAcc(c01CapReq(k, base+uint64(fill)+uint64(nt)))
 	a.inject(base)
 	for j := int64(0); j < fill; j++ {
 		a.r.Push(9001 + j)
@@ -252,6 +252,18 @@ func interleavings(n0, n1 int, cur []int64, f func([]int64)) {
 	if n1 > 0 {
 		interleavings(n0, n1-1, append(cur, 1), f)
 	}
+}
+
+// the capacity REQUESTED from NewSync for a case whose ring has 2^k slots: any value in (2^(k-1), 2^k] must give the same
+// ring (1 and 2 for k = 1); which one is a deterministic function of the case, so that the round-up of the constructor is
+// exercised on every case without a change of the case format
+func c01CapReq(k int64, salt uint64) int {
+	c := 1 << uint(k)
+	if k <= 1 {
+		return c - int(salt&1)
+	}
+	half := uint64(c / 2)
+	return c - int(salt%half)
 }
 
 func c01Case(k int64, base uint64, fill int64, progs [][]int64, sch []int64) []int64 {
